@@ -32,7 +32,8 @@ def replay_handshake(h):
   rx = []
   for pos, x in enumerate(h['script'], 1):
     if x == 'CNXN':
-      rx += usbfake.frame('CNXN', 0x01000000, 4096, 'device:SER%d:banner text' % pos)
+      # (the banner is free text: property lists with colons and semicolons are usual)
+      rx += usbfake.frame('CNXN', 0x01000000, 4096, 'device:SER%d:banner text%s' % (pos, BANNER_TAIL[pos % 2]))
     elif x == 'CNXNBAD':
       rx += usbfake.frame('CNXN', 0x01000000, 4096, 'nocolons')
     elif x == 'TOKEN':
@@ -54,7 +55,7 @@ def replay_handshake(h):
       bad.append('connect() raised %s, model says it returns a connection' % got[1])
     else:
       c = got[1]
-      want = (4096, 'device', 'SER%d' % res[1], 'banner text')
+      want = (4096, 'device', 'SER%d' % res[1], 'banner text' + BANNER_TAIL[res[1] % 2])
       if (c.maxdata, c.systemtype, c.serial, c.banner) != want:
         bad.append('connection attributes are not taken from the CNXN that completed the handshake')
   else:
@@ -83,6 +84,9 @@ def replay_handshake(h):
     bad.append('host sent %s during the handshake, model says %s'
                % ([(m[0], m[1], m[3][:14]) for m in msgs], [(m[0], m[1], m[3][:14]) for m in exp]))
   return bad
+
+
+BANNER_TAIL = ('', ' ro.build.fingerprint=google/walleye:8.1.0/OPM1:user;features=cmd,shell_v2')
 
 
 def work_handshake(text):
